@@ -60,6 +60,54 @@ CLAIMED = {
         "the story generator/printer (harness/storygen.py); the whole-story clause is differential evidence, not a theorem.",
    technique="Coq proof about the lexical helpers + differential compile of every surface-style variant",
    design_ref="DESIGN.md §6 C17"),
+ "C02": dict(
+   category="proof",
+   text="Theorems in coq/Props/C02.v (closed; every story, oracle, state): the choices render_passage offers are exactly the enabled candidates (condition holds - a failing condition counts as false - and repeatable or identity not used) of the current section, in order; choose(i) with a valid index navigates with the i-th offered choice's target and arguments; an invalid index returns IndexError with the whole engine state unchanged (stacks included); a taken one-time choice is marked and a marked one is never enabled; marks only grow; a repeatable choice is enabled iff its condition holds.  Known limit F02b (hooks changing variables after the offer was computed) is a listed known finding.  Tie + oracles: correspondence on stories with many one-time/conditional choices and invalid indices; independent recomputation of enabledness with Python eval; rejected-call state comparison.",
+   note="Trusted: Coq kernel + vm_compute; the hand-written model Engine/Engine.v is tied to bardic/runtime/engine.py only by the correspondence run (generated stories x histories, every step's result kind and full view compared inside Coq); author code is an arbitrary oracle record in the theorems and the mini-Python of Lang/PyMini.v in the correspondence; harness (generator, term printers). Assumes effect-free display expressions/conditions and no in-place effect of a failing statement before it fails.",
+   technique='Coq proofs over the engine model (arbitrary author-code oracle) + vm_compute correspondence on generated stories x histories + direct oracles',
+   design_ref="DESIGN.md §6 C02"),
+ "C03": dict(
+   category="proof",
+   text='Theorems in coq/Props/C03.v: entering a passage logs exactly its commands once in source order after the entry event; one navigation enters pairwise distinct passages, none visited before; rendering enters no passage and runs no hook; the cached output after a successful navigation is the returned one.  Effect-freeness of the real read methods is trivial in the model (OpRead is the identity) and is decided by the correspondence run: read batteries anywhere in histories, state compared before/after; trace variable `tr` shows each passage entered once per navigation.',
+   note="Trusted: Coq kernel + vm_compute; the hand-written model Engine/Engine.v is tied to bardic/runtime/engine.py only by the correspondence run (generated stories x histories, every step's result kind and full view compared inside Coq); author code is an arbitrary oracle record in the theorems and the mini-Python of Lang/PyMini.v in the correspondence; harness (generator, term printers). Assumes effect-free display expressions/conditions and no in-place effect of a failing statement before it fails.",
+   technique='Coq proofs over the engine model (arbitrary author-code oracle) + vm_compute correspondence on generated stories x histories + direct oracles',
+   design_ref="DESIGN.md §6 C03"),
+ "C04": dict(
+   category="proof",
+   text='Theorems in coq/Props/C04.v: undo after any accepted choice (successful or failed half-way) restores the whole core (position, variables, used, hooks, join progress, displayed output) and the scope stack exactly; redo after undo restores state and both stacks exactly; a choice pushes one restore point (bounded by 50, an invariant of every operation) and empties the redo stack; undo pops exactly one; undo/redo on empty stacks are the identity.  Independence of snapshots from later in-place mutation is immediate for Gallina values and is carried by the correspondence with stories mutating lists/dicts in place, plus direct undo/redo law oracles and 70-operation histories crossing the 50 bound in the thorough tier.',
+   note="Trusted: Coq kernel + vm_compute; the hand-written model Engine/Engine.v is tied to bardic/runtime/engine.py only by the correspondence run (generated stories x histories, every step's result kind and full view compared inside Coq); author code is an arbitrary oracle record in the theorems and the mini-Python of Lang/PyMini.v in the correspondence; harness (generator, term printers). Assumes effect-free display expressions/conditions and no in-place effect of a failing statement before it fails.",
+   technique='Coq proofs over the engine model (arbitrary author-code oracle) + vm_compute correspondence on generated stories x histories + direct oracles',
+   design_ref="DESIGN.md §6 C04"),
+ "C07": dict(
+   category="proof",
+   text='Theorems in coq/Props/C07.v: the scope stack after choose/goto/undo/redo equals the one before, also when the operation raises (the finally); write-back never writes a parameter name; parameters shadow globals in the evaluation context; _bind_arguments equals the Python call rule (positional, keyword, default with earlier parameters visible, else ValueError).  Tie + oracles: parameterised stories with chains and failing navigations; independent Python binder vs the PARAMS line each passage prints; parameter names never in globals; depth 0 after every call; and the call-shape phase: random signatures x argument shapes x call-site kinds (top level and nested) - whatever compiles must bind at run time.',
+   note="Trusted: Coq kernel + vm_compute; the hand-written model Engine/Engine.v is tied to bardic/runtime/engine.py only by the correspondence run (generated stories x histories, every step's result kind and full view compared inside Coq); author code is an arbitrary oracle record in the theorems and the mini-Python of Lang/PyMini.v in the correspondence; harness (generator, term printers). Assumes effect-free display expressions/conditions and no in-place effect of a failing statement before it fails.",
+   technique='Coq proofs over the engine model (arbitrary author-code oracle) + vm_compute correspondence on generated stories x histories + direct oracles',
+   design_ref="DESIGN.md §6 C07"),
+ "C08": dict(
+   category="proof",
+   text="Theorems in coq/Props/C08.v: goto's fuel never decides the outcome (any two sufficient fuels agree; pigeonhole on the duplicate-free visited list); everything after a jump is skipped (result independent of what follows), text/directives before it are kept and the jump hands on target+arguments; a successful goto has the structure enter-execute-render-follow with chain_output concatenating in order and taking the continuation's choices; re-entering a visited passage yields RuntimeError (ValueError if its arguments do not bind) with state and scopes intact; stacks and scopes unchanged by any navigation.  Oracles: per-call alarm, chain markers in entry order, text before/after jumps, RecursionError never.",
+   note="Trusted: Coq kernel + vm_compute; the hand-written model Engine/Engine.v is tied to bardic/runtime/engine.py only by the correspondence run (generated stories x histories, every step's result kind and full view compared inside Coq); author code is an arbitrary oracle record in the theorems and the mini-Python of Lang/PyMini.v in the correspondence; harness (generator, term printers). Assumes effect-free display expressions/conditions and no in-place effect of a failing statement before it fails.",
+   technique='Coq proofs over the engine model (arbitrary author-code oracle) + vm_compute correspondence on generated stories x histories + direct oracles',
+   design_ref="DESIGN.md §6 C08"),
+ "C09": dict(
+   category="proof",
+   text="Theorems in coq/Props/C09.v: a successful ordinary choice runs no hook during navigation and then every existing passage registered for turn_end at that moment exactly once in registration order (registration lists are duplicate-free in every reachable state); the same for the turn_end run after @join choices; the run uses a snapshot of the list (self-unhook takes effect next turn); register is idempotent and appends last; unregister removes exactly that entry (others keep their places; other events untouched); goto runs no hook, undo/redo/reset/reads log nothing; hooks keep position, used marks, join progress, scopes; hook text is appended after the turn's text.  Oracles on the trace variable: untouched hooks run exactly once per choice, FIFO, never on goto/read/reset.",
+   note="Trusted: Coq kernel + vm_compute; the hand-written model Engine/Engine.v is tied to bardic/runtime/engine.py only by the correspondence run (generated stories x histories, every step's result kind and full view compared inside Coq); author code is an arbitrary oracle record in the theorems and the mini-Python of Lang/PyMini.v in the correspondence; harness (generator, term printers). Assumes effect-free display expressions/conditions and no in-place effect of a failing statement before it fails.",
+   technique='Coq proofs over the engine model (arbitrary author-code oracle) + vm_compute correspondence on generated stories x histories + direct oracles',
+   design_ref="DESIGN.md §6 C09"),
+ "C10": dict(
+   category="proof",
+   text="Theorems in coq/Props/C10.v: every offered choice belongs to the passage's current @join section; a '-> @join' choice stays in the passage, renders its own block once, then the text up to the next marker, offers the next section's choices and advances progress by exactly one, hook text last; an ordinary choice is a navigation to its target; after any successful goto the shown passage is at section 0 (re-entry restarts, also through jump chains).  Oracles: section numbers in choice texts, block/section texts, progress.",
+   note="Trusted: Coq kernel + vm_compute; the hand-written model Engine/Engine.v is tied to bardic/runtime/engine.py only by the correspondence run (generated stories x histories, every step's result kind and full view compared inside Coq); author code is an arbitrary oracle record in the theorems and the mini-Python of Lang/PyMini.v in the correspondence; harness (generator, term printers). Assumes effect-free display expressions/conditions and no in-place effect of a failing statement before it fails.",
+   technique='Coq proofs over the engine model (arbitrary author-code oracle) + vm_compute correspondence on generated stories x histories + direct oracles',
+   design_ref="DESIGN.md §6 C10"),
+ "C15": dict(
+   category="proof",
+   text='Theorems in coq/Props/C15.v, for every oracle (a fault at any evaluation point): failing display expression / inline condition -> inline marker, never an exception; failing choice condition -> hidden; failing branch condition -> only that branch skipped; failing statement/block -> RuntimeError where it stands, propagating out of its token list; in every reachable state choose() can only raise IndexError (rejected index), RuntimeError or ValueError; no scope is left behind; a single undo restores the pre-choice core exactly.  Tie: fault injection at every evaluation-point kind (30% per site), model and engine compared step by step; undo-after-fault oracle.',
+   note="Trusted: Coq kernel + vm_compute; the hand-written model Engine/Engine.v is tied to bardic/runtime/engine.py only by the correspondence run (generated stories x histories, every step's result kind and full view compared inside Coq); author code is an arbitrary oracle record in the theorems and the mini-Python of Lang/PyMini.v in the correspondence; harness (generator, term printers). Assumes effect-free display expressions/conditions and no in-place effect of a failing statement before it fails.",
+   technique='Coq proofs over the engine model (arbitrary author-code oracle) + vm_compute correspondence on generated stories x histories + direct oracles',
+   design_ref="DESIGN.md §6 C15"),
 }
 
 ALL = [f"C{i:02d}" for i in range(1, 21)]
